@@ -140,6 +140,8 @@ BUILTIN_EXC = {
     "BrokenPipeError": "ConnectionError",
     "ProcessLookupError": "OSError",
     "ImportError": "Exception",
+    "NameError": "Exception",
+    "UnboundLocalError": "NameError",
     # anyio
     "EndOfStream": "Exception",
     "ClosedResourceError": "Exception",
